@@ -200,7 +200,7 @@ CONTRACTS = {
     f"{SM}.engage": {
         "receivers": RECV, "inv": True, "params": {"initial_state": "Opt[StrOr:_State]", "force": "Bool"},
         "defaults": {"initial_state": None, "force": False},
-        "raises": "KeyError", "requires_for": _AUTO_USAGE,
+        "raises": "KeyError", "requires_for": _AUTO_USAGE, "inv_exclude_raise": ["K3"],
         "modifies": ["self._StateMachine__should_engage", "self._StateMachine__state", "self.nt_current_state", f"{SD}.ran[*]"],
         "ensures": {
             "C01.E1 engage() records the request": "se",
@@ -221,7 +221,8 @@ CONTRACTS = {
         "modifies": ["self._StateMachine__state", "self.nt_current_state", f"{SD}.ran[*]"],
         "ensures": {"C03.N1 the named state becomes current as a fresh entry": "has(states, refname(state)) and st is states[refname(state)] and not st.ran and cs == refname(state)",
                     "only the target becomes fresh": f"forall(s, Ref_{SD}, implies(not (s is st), s.ran == old(s.ran)))"},
-        "ensures_raise": {"KeyError only for an unknown state": "not has(states, refname(state))"},
+        "ensures_raise": {"KeyError only for an unknown state": "not has(states, refname(state))",
+                          "nothing changed": f"st is old(st) and cs == old(cs) and forall(s, Ref_{SD}, s.ran == old(s.ran))"},
     },
     f"{SM}.next_state_now": {
         "receivers": RECV, "inv": True, "inv_on_raise": False, "params": {"state": "StrOr:_State"}, "raises": True,
